@@ -32,7 +32,7 @@ man = {
         "guard": "verif (cargo feature of /repo, declared as `verif = []`)",
         "enable": "the harness crate /verif/harness depends on /repo by path with features = [\"verif\"]; CLI-level streams use the release binary built with the feature off",
         "baseline_off_cmd": "cd /repo && cargo test --workspace --no-fail-fast --offline",
-        "source_commits": ["67eae4f", "68483e7", "0156c5e", "70c6f34", "ca2c9a6", "a890f49"],
+        "source_commits": ["67eae4f", "68483e7", "0156c5e", "70c6f34", "ca2c9a6", "a890f49", "85759ce"],
         "add_only": False,
     },
     "engines": [
